@@ -14,6 +14,8 @@
 EXTENDS Bytes
 
 Reject == [ok |-> FALSE]
+OutOfDomain == [ok |-> FALSE, ood |-> TRUE]   \* value outside the model (an OID arc >= 2^31)
+IsOod(x) == "ood" \in DOMAIN x
 IsPrefix(p, s) == Len(p) <= Len(s) /\ SubSeq(s, 1, Len(p)) = p
 Drop(s, k) == SubSeq(s, k + 1, Len(s))
 Take(s, k) == SubSeq(s, 1, k)
@@ -29,9 +31,9 @@ DecLen(s) ==
   ELSE LET k == s[1] - 128
        IN  IF k = 0 \/ Len(s) < 1 + k THEN Reject
            ELSE LET body == SubSeq(s, 2, 1 + k)
-                IN  \* a canonical length has no leading zero and is >= 128; one that does not
-                    \* fit 31 bits can never be <= the bytes present, so it is rejected here
-                    IF body[1] = 0 \/ k > 4 \/ (k = 4 /\ body[1] >= 128) THEN Reject
+                IN  IF body[1] = 0 THEN Reject            \* leading zero: not minimal
+                    \* a minimal length that does not fit 31 bits is outside the model's integers
+                    ELSE IF k > 4 \/ (k = 4 /\ body[1] >= 128) THEN OutOfDomain
                     ELSE LET l == ToNat(body)
                          IN  IF EncLen(l) = Take(s, 1 + k)
                              THEN [ok |-> TRUE, len |-> l, used |-> 1 + k] ELSE Reject
@@ -110,20 +112,21 @@ OidValid(arcs) == /\ Len(arcs) >= 2
 EncOid(arcs) == EncTLV(6, EncSubIds(<<40 * arcs[1] + arcs[2]>> \o SubSeq(arcs, 3, Len(arcs))))
 
 (* split a body into subidentifier values (structural: bytes >= 128 continue) *)
-RECURSIVE SubIdsOf(_, _)
-SubIdsOf(b, acc) ==
-  IF b = <<>> THEN (IF acc = 0 THEN <<>> ELSE <<-1>>)     \* -1: ran out inside a subidentifier
-  ELSE IF b[1] >= 128 THEN SubIdsOf(Tail(b), IF acc = -2 THEN -2 ELSE
-                                              IF acc >= 16777216 THEN -2 ELSE acc * 128 + (b[1] - 128))
-  ELSE <<(IF acc = -2 \/ acc >= 16777216 THEN -2 ELSE acc * 128 + b[1])>> \o SubIdsOf(Tail(b), 0)
+RECURSIVE SubIdsOf(_, _, _)
+\* acc: value so far (-2 = beyond 31 bits); inside: some byte of the current subidentifier was read
+SubIdsOf(b, acc, inside) ==
+  IF b = <<>> THEN (IF inside THEN <<-1>> ELSE <<>>)       \* -1: ran out inside a subidentifier
+  ELSE LET nacc == IF acc = -2 \/ acc >= 16777216 THEN -2 ELSE acc * 128 + (b[1] % 128)
+       IN  IF b[1] >= 128 THEN SubIdsOf(Tail(b), nacc, TRUE)
+           ELSE <<nacc>> \o SubIdsOf(Tail(b), 0, FALSE)
 
 DecOid(s) ==
   LET T == DecTLV(6, s)
   IN  IF ~T.ok \/ T.body = <<>> THEN Reject
-      ELSE LET ids == SubIdsOf(T.body, 0)
+      ELSE LET ids == SubIdsOf(T.body, 0, FALSE)
            IN  IF \E i \in 1..Len(ids) : ids[i] < 0 THEN
                   \* truncated last subidentifier => reject; an arc >= 2^31 is outside the domain
-                  (IF \E i \in 1..Len(ids) : ids[i] = -1 THEN Reject ELSE [ok |-> "domain"])
+                  (IF \E i \in 1..Len(ids) : ids[i] = -1 THEN Reject ELSE OutOfDomain)
                ELSE LET n0 == ids[1]
                         first == IF n0 < 80 THEN n0 \div 40 ELSE 2
                         arcs == <<first, n0 - 40 * first>> \o Tail(ids)
@@ -145,10 +148,10 @@ RdLen(s) ==
        IN  IF llen = 0 THEN Unexp
            ELSE IF llen > Len(s) - 1 THEN Unexp
            ELSE IF s[2] = 0 \/ (llen = 1 /\ s[2] < 128) THEN Unexp
-           ELSE IF llen > 4 \/ (llen = 4 /\ s[2] >= 128) THEN [ok |-> TRUE, len |-> "huge", used |-> 1 + llen]
+           ELSE IF llen > 4 \/ (llen = 4 /\ s[2] >= 128) THEN [ok |-> TRUE, len |-> -1, used |-> 1 + llen]
            ELSE [ok |-> TRUE, len |-> ToNat(SubSeq(s, 2, 1 + llen)), used |-> 1 + llen]
 
-Huge(L) == L.len = "huge"
+Huge(L) == L.len < 0   \* a length that does not fit 31 bits
 
 (* remove_sequence / remove_integer share the shape: emptiness, tag, read_length, overrun *)
 RdSeq(s) ==
@@ -171,4 +174,79 @@ RdInt(s) ==
                 IN  IF nb[1] >= 128 THEN Unexp
                     ELSE IF L.len > 1 /\ nb[1] = 0 /\ nb[2] < 128 THEN Unexp
                     ELSE [ok |-> TRUE, val |-> Strip(nb), rest |-> Drop(s, 1 + L.used + L.len)]
+
+RdOctet(s) ==
+  IF s = <<>> THEN Unexp
+  ELSE IF s[1] # 4 THEN Unexp
+  ELSE LET L == RdLen(Drop(s, 1))
+       IN  IF ~L.ok THEN L
+           ELSE IF Huge(L) \/ L.len > Len(s) - 1 - L.used THEN Unexp
+           ELSE [ok |-> TRUE, body |-> SubSeq(s, 2 + L.used, 1 + L.used + L.len),
+                 rest |-> Drop(s, 1 + L.used + L.len)]
+
+(* remove_constructed: (s0 & 0xE0) = 0xA0, tag = s0 & 0x1F *)
+RdCons(s) ==
+  IF s = <<>> THEN Unexp
+  ELSE IF s[1] \div 32 # 5 THEN Unexp
+  ELSE LET L == RdLen(Drop(s, 1))
+       IN  IF ~L.ok THEN L
+           ELSE IF Huge(L) \/ L.len > Len(s) - 1 - L.used THEN Unexp
+           ELSE [ok |-> TRUE, tag |-> s[1] % 32,
+                 body |-> SubSeq(s, 2 + L.used, 1 + L.used + L.len),
+                 rest |-> Drop(s, 1 + L.used + L.len)]
+
+(* remove_bitstring(string, expect_unused) with expect_unused = None (here: -1) or an integer *)
+RdBits(s, expect) ==
+  IF s = <<>> THEN Unexp
+  ELSE IF s[1] # 3 THEN Unexp
+  ELSE LET L == RdLen(Drop(s, 1))
+       IN  IF ~L.ok THEN L
+           ELSE IF L.len = 0 THEN Unexp
+           ELSE IF Huge(L) \/ L.len > Len(s) - 1 - L.used THEN Unexp
+           ELSE LET body == SubSeq(s, 2 + L.used, 1 + L.used + L.len)
+                    unused == body[1]
+                    b == Drop(body, 1)
+                IN  IF unused > 7 THEN Unexp
+                    ELSE IF expect >= 0 /\ expect # unused THEN Unexp
+                    ELSE IF unused > 0 /\ b = <<>> THEN Unexp
+                    ELSE IF unused > 0 /\ b[Len(b)] % Pow2[unused] # 0 THEN Unexp
+                    ELSE [ok |-> TRUE, body |-> b, unused |-> unused,
+                          rest |-> Drop(s, 1 + L.used + L.len)]
+
+(* read_number: value and bytes used; arcs beyond 31 bits are outside the model ("domain") *)
+RECURSIVE RdNumLoop(_, _, _)
+RdNumLoop(s, llen, number) ==
+  IF llen >= Len(s) THEN Unexp
+  ELSE LET d == s[llen + 1]
+           nn == IF number < 0 \/ number >= 16777216 THEN -1 ELSE number * 128 + (d % 128)   \* -1: too big for the model
+       IN  IF d < 128 THEN [ok |-> TRUE, val |-> nn, used |-> llen + 1]
+           ELSE RdNumLoop(s, llen + 1, nn)
+RdNumber(s) == IF s = <<>> THEN IdxErr ELSE IF s[1] = 128 THEN Unexp ELSE RdNumLoop(s, 0, 0)
+
+RECURSIVE RdNumbers(_)
+RdNumbers(body) ==
+  IF body = <<>> THEN [ok |-> TRUE, nums |-> <<>>]
+  ELSE LET N == RdNumber(body)
+       IN  IF ~N.ok THEN N
+           ELSE LET R == RdNumbers(Drop(body, N.used))
+                IN  IF ~R.ok THEN R ELSE [ok |-> TRUE, nums |-> <<N.val>> \o R.nums]
+
+RdObj(s) ==
+  IF s = <<>> THEN Unexp
+  ELSE IF s[1] # 6 THEN Unexp
+  ELSE LET L == RdLen(Drop(s, 1))
+       IN  IF ~L.ok THEN L
+           ELSE LET avail == Len(s) - 1 - L.used
+                    blen == IF Huge(L) \/ L.len > avail THEN avail ELSE L.len
+                    body == SubSeq(s, 2 + L.used, 1 + L.used + blen)
+                IN  IF body = <<>> THEN Unexp
+                    ELSE IF Huge(L) \/ blen # L.len THEN Unexp
+                    ELSE LET R == RdNumbers(body)
+                         IN  IF ~R.ok THEN R
+                             ELSE IF \E i \in 1..Len(R.nums) : R.nums[i] < 0 THEN OutOfDomain
+                             ELSE LET n0 == R.nums[1]
+                                      first == IF n0 < 80 THEN n0 \div 40 ELSE 2
+                                  IN  [ok |-> TRUE,
+                                       arcs |-> <<first, n0 - 40 * first>> \o Tail(R.nums),
+                                       rest |-> Drop(s, 1 + L.used + L.len)]
 =============================================================================
